@@ -145,7 +145,8 @@ def registry_drift(ctx, table, required):
             req = {p.name for p in nonproto if p.default is inspect.Parameter.empty}
             acc = {p.name for p in nonproto}
             if name not in table.get(kind, {}):
-                ctx.drift(f'registry {kind}: component {name} is not in the specification table')
+                if getattr(f, '__module__', '').startswith('gym_gridverse'):
+                    ctx.drift(f'registry {kind}: component {name} is not in the specification table')
             elif table[kind][name] != acc or required[kind][name] != req:
                 ctx.drift(f'registry {kind}.{name}: specification says required={sorted(required[kind][name])} accepted={sorted(table[kind][name])}, '
                           f'code has required={sorted(req)} accepted={sorted(acc)}')
@@ -340,7 +341,7 @@ def run(ctx, replay=None):
             if out != verdict:
                 ctx.violation(f'{name}: corruption [{desc}] -> {out}, the specification says {verdict}',
                               {'kind': 'corruption', 'file': name, 'corruption': [kind, cpath, key, value], 'verdict': verdict, 'observed': out})
-            elif out == 'accept' and kind in ('add_param', 'remove_param'):
+            elif out == 'accept' and kind in ('add_param', 'remove_param', 'set_value'):
                 # still the described environment: compare with the hand-assembled one
                 env3 = hand_assemble(snapshot, table)
                 cfg = config.spec_config(snapshot)
@@ -355,33 +356,71 @@ def run(ctx, replay=None):
     ctx.add_part('single corruptions', files=[os.path.basename(f) for f in base_files], corruptions=n_corr)
     # ---- component factories: name + parameters behaves like the underlying function
     n_f = 0
+    O = steps.O
+    g = [[O('Floor'), O('Exit'), O('Key', 0, 'RED')], [O('Wall'), O('Beacon', 0, 'RED'), O('Door', 1, 'RED')], [O('MovingObstacle'), O('Floor'), O('Floor')]]
+    triples = []
+    for (p1, o1, p2, a) in [([0, 0], 'R', [0, 1], 'MOVE_FORWARD'), ([0, 0], 'B', [0, 0], 'MOVE_FORWARD'), ([2, 1], 'L', [2, 0], 'MOVE_FORWARD'),
+                            ([1, 1], 'R', [1, 1], 'ACTUATE'), ([0, 1], 'R', [0, 1], 'PICK_N_DROP')]:
+        s1 = {'grid': g, 'pos': p1, 'ori': o1, 'item': O('NoneGridObject')}
+        g2 = json.loads(json.dumps(g))
+        s2 = {'grid': g2, 'pos': p2, 'ori': o1, 'item': O('NoneGridObject')}
+        if a == 'ACTUATE':
+            g2[1][2] = O('Door', 0, 'RED')
+        if a == 'PICK_N_DROP':
+            g2[0][2] = O('Floor')
+            s2['item'] = O('Key', 0, 'RED')
+        triples.append((proj.state_from_json(s1), Action[a], proj.state_from_json(s2)))
     for kind, mod in (('reward', reward_fs), ('terminating', terminating_fs)):
         for name, f in REG[kind].items():
-            if name in ('reduce',):
-                continue
-            kw = {}
+            if name in ('reduce',) or name not in table[kind]:
+                continue   # custom components (coin example) are not part of the specification
+            base_kw = {}
             for k in required[kind].get(name, set()):
-                kw[k] = {'object_type': grid_object_registry.from_name('Exit'), 'reward_functions': [], 'terminating_functions': []}[k]
-            try:
-                a = mod.factory(name, bogus=1, **kw)
-                b = functools.partial(f, **kw)
-            except Exception as e:
-                ctx.violation(f'{kind} factory({name}) with an extra unknown parameter raised {type(e).__name__}', {'kind': 'factory', 'name': name})
-                continue
+                base_kw[k] = {'object_type': grid_object_registry.from_name('Exit'),
+                              'reward_functions': [functools.partial(REG['reward']['living_reward'], reward=0.25)],
+                              'terminating_functions': [REG['terminating']['reach_exit']]}[k]
+            optional = sorted(table[kind][name] - required[kind].get(name, set()))
+            variants = [dict(base_kw)]
+            for k in optional:
+                if k.startswith('reward'):
+                    # falsy and non-default values
+                    variants += [dict(base_kw, **{k: 0.0}), dict(base_kw, **{k: 0.375}), dict(base_kw, **{k: -2.5})]
+            for kw in variants:
+                try:
+                    a_fn = mod.factory(name, bogus=1, **kw)
+                    b_fn = functools.partial(f, **kw)
+                    for (s1, act, s2) in triples:
+                        n_f += 1
+                        va, vb = a_fn(s1, act, s2), b_fn(s1, act, s2)
+                        if va != vb:
+                            ctx.violation(f'{kind} factory({name}, {[(k, v) for k, v in kw.items() if k in optional]}) returns {va!r}, the underlying function called with those parameters returns {vb!r}',
+                                          {'kind': 'factory', 'name': name, 'params': {k: v for k, v in kw.items() if k in optional}})
+                            break
+                except Exception as e:
+                    ctx.violation(f'{kind} factory({name}) with parameters {sorted(kw)} (and an unknown extra one) failed: {type(e).__name__}: {e}',
+                                  {'kind': 'factory', 'name': name, 'error': repr(e)})
             for k in required[kind].get(name, set()):
-                kw2 = {x: y for x, y in kw.items() if x != k}
+                kw2 = {x: y for x, y in base_kw.items() if x != k}
                 try:
                     mod.factory(name, **kw2)
                     ctx.violation(f'{kind} factory({name}) without required parameter {k} did not raise', {'kind': 'factory', 'name': name})
                 except ValueError:
                     pass
-            st = proj.state_from_json({'grid': [[steps.O('Floor'), steps.O('Exit')], [steps.O('Wall'), steps.O('Beacon', 0, 'RED')]], 'pos': [0, 0], 'ori': 'R',
-                                       'item': steps.O('NoneGridObject')})
-            nx = proj.state_from_json({'grid': [[steps.O('Floor'), steps.O('Exit')], [steps.O('Wall'), steps.O('Beacon', 0, 'RED')]], 'pos': [0, 1], 'ori': 'R',
-                                       'item': steps.O('NoneGridObject')})
-            n_f += 1
-            if a(st, Action.MOVE_FORWARD, nx) != b(st, Action.MOVE_FORWARD, nx):
-                ctx.violation(f'{kind} factory({name}) behaves differently from the underlying function', {'kind': 'factory', 'name': name})
+                except Exception as e:
+                    ctx.violation(f'{kind} factory({name}) without required parameter {k} raised {type(e).__name__} instead of ValueError', {'kind': 'factory', 'name': name})
+    # reset functions by name: falsy flags and counts are parameters, not absences
+    for (name, kw) in [('empty', dict(shape=Shape(5, 5), random_agent=False, random_exit=False)), ('empty', dict(shape=Shape(5, 5), random_agent=True, random_exit=False)),
+                       ('dynamic_obstacles', dict(shape=Shape(6, 6), num_obstacles=0, random_agent=True)),
+                       ('dynamic_obstacles', dict(shape=Shape(6, 6), num_obstacles=2, random_agent=False))]:
+        for sd in range(3):
+            try:
+                x = reset_fs.factory(name, bogus=None, **kw)(rng=np.random.default_rng(sd))
+                y = REG['reset'][name](rng=np.random.default_rng(sd), **kw)
+                n_f += 1
+                if not (x == y):
+                    ctx.violation(f'reset factory({name}, {kw}) differs from the underlying function', {'kind': 'factory', 'name': name})
+            except Exception as e:
+                ctx.violation(f'reset factory({name}, {kw}) failed: {type(e).__name__}: {e}', {'kind': 'factory', 'name': name})
     ctx.add_counts(evaluations=n_f)
     ctx.add_part('component factories', components=n_f)
 
